@@ -100,9 +100,20 @@ package destination
 //@ func (dest *Destination) updateConn(addr string)
 //@   trusted
 //@   modifies dest.Addr, dest.Instance, dest.Key, sent(dest.inConnUpdate), sent(dest.connUpdates), dest.numDropNoConnNoSpool, dest.numDropSlowSpool, dest.numDropSlowConn
+//@ // collectRedo: everything the dead connection still held (kept-safe lines, then the lines still queued for it)
+//@ // is handed to the spool's bulk input, in that order, nothing skipped
 //@ func (dest *Destination) collectRedo(conn *Conn)
-//@   trusted
+//@   property C07
+//@   requires conn != nil && conn.keepSafe != nil && conn.In != nil && conn.numBuffered != nil && !conn.keepSafe.Mutex.held && conn.keepSafe.initialCap >= 0
+//@   requires conn.keepSafe.safeOld.arr != conn.keepSafe.safeRecent.arr || conn.keepSafe.safeOld.arr == 0
+//@   requires dest.spool != nil && dest.spool.InBulk != nil && !closed(dest.spool.InBulk) && dest.spool.InBulk != conn.In
+//@   requires len(conn.keepSafe.safeOld) >= 0 && len(conn.keepSafe.safeRecent) >= 0
+//@   let k := conn.keepSafe
+//@   let S0 := sent(dest.spool.InBulk)
 //@   modifies *
+//@   ensures[all_redo_lines_spooled; C07] llen(sent(dest.spool.InBulk)) == llen(S0) + old(len(k.safeOld)) + old(len(k.safeRecent)) + llen(recvd(conn.In)) - old(llen(recvd(conn.In)))
+//@   ensures[kept_old_spooled_in_order; C07] forall p int :: llen(S0) <= p && p < llen(S0) + old(len(k.safeOld)) ==> lget(sent(dest.spool.InBulk), p) == elemOf(old(k.safeOld[p - llen(S0)]))
+//@   ensures[kept_recent_spooled_in_order; C07] forall p int :: llen(S0) + old(len(k.safeOld)) <= p && p < llen(S0) + old(len(k.safeOld)) + old(len(k.safeRecent)) ==> lget(sent(dest.spool.InBulk), p) == elemOf(old(k.safeRecent[p - llen(S0) - len(k.safeOld)]))
 //@
 //@ spec relayWf(dest *Destination) bool := destParamsOK(dest) && dest.In != nil && dest.numDropNoConnNoSpool != nil && dest.numDropSlowSpool != nil && dest.numDropSlowConn != nil
 //@      && dest.numDropNoConnNoSpool.ref != dest.numDropSlowSpool.ref && dest.numDropNoConnNoSpool.ref != dest.numDropSlowConn.ref && dest.numDropSlowSpool.ref != dest.numDropSlowConn.ref
@@ -238,11 +249,12 @@ package destination
 //@   requires c.keepSafe != nil && c.In != nil && c.numBuffered != nil && !c.keepSafe.Mutex.held && c.keepSafe.initialCap >= 0
 //@   requires c.keepSafe.safeOld.arr != c.keepSafe.safeRecent.arr || c.keepSafe.safeOld.arr == 0
 //@   let k := c.keepSafe
-//@   modifies *
+//@   modifies k.safeOld, k.safeRecent, k.Mutex.held, k.safeOld[..], k.safeRecent[..], recvd(c.In), drained(c.In), c.numBuffered.count, closed(k.closed), k.closed
 //@   ensures[count; C07] len(result) == old(len(k.safeOld)) + old(len(k.safeRecent)) + llen(recvd(c.In)) - old(llen(recvd(c.In)))
 //@   ensures[kept_old; C07] forall j int :: 0 <= j && j < old(len(k.safeOld)) ==> result[j] == old(k.safeOld[j])
 //@   ensures[kept_recent; C07] forall j int :: 0 <= j && j < old(len(k.safeRecent)) ==> result[old(len(k.safeOld)) + j] == old(k.safeRecent[j])
 //@   ensures[emptied; C07] len(k.safeOld) == 0 && len(k.safeRecent) == 0
+//@   ensures[drained_lines_counted] llen(recvd(c.In)) >= old(llen(recvd(c.In)))
 //@   loop 1:
 //@     invariant[wf] c.keepSafe == k && c.In == old(c.In) && c.numBuffered == old(c.numBuffered) && !k.Mutex.held && k.initialCap >= 0 && (k.safeOld.arr != k.safeRecent.arr || k.safeOld.arr == 0)
 //@     invariant[old_kept] k.safeOld == old(k.safeOld) && (forall j int :: 0 <= j && j < len(k.safeOld) ==> k.safeOld[j] == old(k.safeOld[j]))
@@ -272,9 +284,15 @@ package destination
 //@   define forall n int :: 0 <= n && n < len(bulkData) ==> ingested(n + 1) == ingested(n) ++ elemOf(bulkData[n])
 //@   modifies sent(s.InBulk)
 //@   ensures[all_in_order; C07] sent(s.InBulk) == ingested(len(bulkData))
+//@   ensures[count; C07] llen(sent(s.InBulk)) == old(llen(sent(s.InBulk))) + len(bulkData)
+//@   ensures[each_at_its_place; C07] forall p int :: old(llen(sent(s.InBulk))) <= p && p < old(llen(sent(s.InBulk))) + len(bulkData) ==> lget(sent(s.InBulk), p) == elemOf(bulkData[p - old(llen(sent(s.InBulk)))])
+//@   ensures[earlier_entries_kept; C07] forall j int :: 0 <= j && j < old(llen(sent(s.InBulk))) ==> lget(sent(s.InBulk), j) == old(lget(sent(s.InBulk), j))
 //@   loop 1:
 //@     invariant[idx] 0 <= #i && #i <= len(#s) && #s == bulkData && s.InBulk == old(s.InBulk)
 //@     invariant[prefix_sent] sent(s.InBulk) == ingested(#i)
+//@     invariant[count] llen(sent(s.InBulk)) == old(llen(sent(s.InBulk))) + #i
+//@     invariant[placed] forall p int :: old(llen(sent(s.InBulk))) <= p && p < old(llen(sent(s.InBulk))) + #i ==> lget(sent(s.InBulk), p) == elemOf(bulkData[p - old(llen(sent(s.InBulk)))])
+//@     invariant[earlier] forall j int :: 0 <= j && j < old(llen(sent(s.InBulk))) ==> lget(sent(s.InBulk), j) == old(lget(sent(s.InBulk), j))
 //@     assumed_invariant[channel_ownership] !closed(s.InBulk)
 //@
 //@ // collectRedo: what getRedo returns is what Ingest gets
